@@ -283,5 +283,5 @@ def prebuild(tier):
 
 
 SUBCHECKS = [
-    Sub("hash_and_sample", cases(), check, 30000, 400000, ("asm",), ("asm", "p32"), setup=setup),
+    Sub("hash_and_sample", cases(), check, 30000, 250000, ("asm",), ("asm", "p32"), setup=setup),
 ]
